@@ -366,6 +366,13 @@ def run_c13(tier, seed):
             continue
         want = SS.pcf(p)
         case = {"schema": short(raw)}
+        # the specification functions used by the deductive contract (spec/canon.py) against this independent oracle
+        try:
+            import spec.canon as K
+            if K.CANON_WF(p) and K.PCF(p) != want:
+                res.fail("equals_spec_transformation", f"the two statements of the canonical form disagree: {K.PCF(p)} vs {want}", case, "")
+        except Exception as e:   # noqa
+            res.fail("equals_spec_transformation", f"spec.canon raised {type(e).__name__}: {e}", case, "")
         rp = f"from fastavro.schema import to_parsing_canonical_form\nprint(to_parsing_canonical_form({raw!r}))\n"
         res.case("equals_spec_transformation", short(raw, 2000), sample=case)
         try:
